@@ -234,6 +234,10 @@ def operand_text(body, op, depth=0):
                 return ".".join([base] + proj) if proj else base
     if 1 <= l <= body.fn["arg_count"]:
         return ".".join([_ty_word(body.locals[l]["ty"])] + proj)
+    if not proj and body.locals[l]["ty"] in ("u8", "u16", "u32", "u64", "usize"):
+        # a number computed on several paths (a temporary, the parameter of a helper looked at in place): by its type, as
+        # a user variable holding the same value would be
+        return body.locals[l]["ty"]
     return ".".join(["_"] + proj) if proj else "_"
 
 
@@ -1491,6 +1495,54 @@ def d_subid(site):
     return None
 
 
+def d_rspack(site):
+    """The `_ => unreachable!()` arm of the match a handle operation applies to the value its own oneshot receiver
+    yields (written in the operation, in a closure of it, or in a private helper of the client layer that the
+    operation calls, e.g. an extension trait `RxPacket::expect_puback`): the site is reached only on the edge "any
+    other variant" of a match on an RxPacket that lists exactly one variant. RSP-VARIANT decides, on the operation with
+    such helpers looked at in place, that the listed variant is the acknowledgement the standard prescribes for the
+    request the operation enqueued; KEY and LOOKUP decide that the context completes a waiter only with the packet
+    whose key equals the key registered for it. The discharge is void while any of them fails."""
+    if site.kind != "panic":
+        return None
+    body = site.body
+    ctx = _CTX[0]
+    if ctx is None or ctx.layer_of(body.path) != "client":
+        return None
+    p = body.path
+    in_op = bool(re.match(r"client::handle::ContextHandle::(ping|publish|subscribe|unsubscribe|disconnect)(::|$)", strip_generics(p)))
+    if not in_op:
+        root = re.sub(r"(::\{closure#\d+\})+$", "", p)
+        in_op = any(root in (b_.fn.get("inlined") or []) or p in (b_.fn.get("inlined") or []) for b_ in ctx.handle_ops().values())
+    if not in_op:
+        return None
+    from ctx import RXPACKET
+    for sb in body.dominators(site.bb):
+        si = body.switch_info(sb)
+        if not si or si["kind"] != "discr" or si.get("adt") != RXPACKET or len(si["targets"]) != 1 or si["otherwise"] is None:
+            continue
+        tgt = si["targets"][0][1]
+        if body.dominates(si["otherwise"], site.bb) and site.bb not in body.reachable_from(tgt, avoid=[sb]):
+            return "D-linked[RSP-VARIANT,KEY,LOOKUP] the arm `any other packet` of the match on the awaited acknowledgement (only RxPacket::%s is listed): the waiter is completed only with the acknowledgement registered for its request" % si["variants"].get(si["targets"][0][0])
+    return None
+
+
+def d_authtx(site):
+    """`self.authentication_method.unwrap()` / `self.authentication_data.unwrap()` in the encoder of AuthTx (whichever
+    private function of the type holds it): the packet was built by AuthTxBuilder, whose validate() refuses a
+    non-shortened AUTH lacking either (rule MANDATORY, AuthTxBuilder rows); the discharge is void while MANDATORY fails."""
+    if site.kind != "unwrap" or site.operand is None:
+        return None
+    body = site.body
+    p = re.sub(r"<'\w+>", "", strip_generics(body.path))
+    if not (p.startswith("codec::auth::AuthTx::") or "codec::auth::AuthTx as core::utils::Encode" in p):
+        return None
+    fs = {a[2] for a in body.atoms(site.operand) if a[0] == "field" and re.sub(r"<.*$", "", a[1] or "").endswith("codec::auth::AuthTx")}
+    if fs and fs <= {"authentication_method", "authentication_data"} and any(a[0] == "param" and a[1] == 1 for a in body.atoms(site.operand)):
+        return "D-linked[MANDATORY] AuthTx.%s is present in every AuthTx that reaches the full encoding: AuthTxBuilder::validate refuses a non-shortened AUTH without it" % sorted(fs)[0]
+    return None
+
+
 def d_quota(site):
     """`send_quota + 1` on an edge establishing send_quota != / < remote_receive_maximum: safe under the invariant
     send_quota <= remote_receive_maximum <= 65535, which is what the QUOTA rules establish (linked)."""
@@ -1643,7 +1695,7 @@ def discharge(ctx, site, ledger):
     r = d_derive(site)
     if r:
         return r
-    for f in (d_const, d_guard, d_range, d_posrange, d_fold, d_minhdr, d_subid, d_memlen, d_lenfit, d_len, d_cmp, d_quota, d_posindex, d_keydomain, d_stream, d_varint):
+    for f in (d_const, d_guard, d_range, d_posrange, d_fold, d_minhdr, d_subid, d_authtx, d_rspack, d_memlen, d_lenfit, d_len, d_cmp, d_quota, d_posindex, d_keydomain, d_stream, d_varint):
         r = f(site)
         if r:
             return r
@@ -1671,7 +1723,7 @@ def panic_rule(ctx):
         if r and r.startswith("ledger"):
             used.add(s_.key)
         if r and r.startswith("D-linked["):
-            auto_links.add(r[len("D-linked["):].split("]")[0])
+            auto_links |= {x.strip() for x in r[len("D-linked["):].split("]")[0].split(",")}
         out.append(Inst("PANIC", s_.key, r is not None, s_.site(), "%s site `%s` on %s: %s" % (s_.kind, s_.what, s_.prov or "-", r or "NOT discharged"),
                         "a dominating guard, a direct length comparison, constant folding, or a ledger entry with a reason"))
     import engine as _eng
